@@ -224,9 +224,20 @@ Definition b64_decode (s : bytes) : bytes :=
   let '(o, rest) := b64_groups k s in
   o ++ b64_tail pad rest.
 
-(* lyplg_type_store_binary (text formats): stored value = (octets, canonical string). The canonical string is the
-   text as written (after the line feeds were removed), NOT the RFC 4648 encoding of the octets. The length
-   restriction is checked on the number of octets. *)
+(* binary_base64_is_canonical (since /repo commit c0ee3aa): the unused bits of the last character before the padding
+   are zero. value_len < 4 or no = at the end: nothing unused. Two = : (dtable[value[len - 3]] & 0x0F) == 0,
+   one = : (dtable[value[len - 2]] & 0x03) == 0. On a validated text. *)
+Definition b64_is_canonical (s : bytes) : bool :=
+  let n := length s in
+  if (Nat.ltb n 4 || negb (nth (n - 1) s 0 =? 61))%bool then true
+  else if nth (n - 2) s 0 =? 61 then N.land (b64_dec (nth (n - 3) s 0)) 15 =? 0
+  else N.land (b64_dec (nth (n - 2) s 0)) 3 =? 0.
+
+(* lyplg_type_store_binary (text formats): stored value = (octets, canonical string). Since /repo commit c0ee3aa
+   the text as written (after the line feeds were removed) is kept as the canonical string only when it is the
+   canonical encoding (b64_is_canonical); otherwise no canonical string is stored and lyplg_type_print_binary
+   generates it with binary_base64_encode from the octets when it is asked for (modelled eagerly: the second
+   component is what lyd_get_value() returns). The length restriction is checked on the number of octets. *)
 Definition bin_val : Type := (bytes * bytes)%type.
 Definition binary_store (parts : list (Z * Z)) (s : bytes) : res bin_val :=
   match b64_newlines s with
@@ -234,7 +245,8 @@ Definition binary_store (parts : list (Z * Z)) (s : bytes) : res bin_val :=
   | Ok t =>
       if b64_validate t then
         let d := b64_decode t in
-        if validate_range parts (Z.of_nat (length d)) then Ok (d, t) else Err E_RANGE
+        if validate_range parts (Z.of_nat (length d)) then Ok (d, if b64_is_canonical t then t else b64_encode d)
+        else Err E_RANGE
       else Err E_VALID
   end.
 Definition binary_canon (v : bin_val) : bytes := snd v.
